@@ -41,7 +41,6 @@ Definition r_val (r : list Z) := nth 4 r 0.
 Definition is_ev (k j tag : Z) (r : list Z) : bool := (r_kind r =? k) && (r_j r =? j) && (r_tag r =? tag).
 Definition count_ev (k j tag : Z) (l : list (list Z)) : Z := Z.of_nat (length (filter (is_ev k j tag) l)).
 
-Fixpoint chain (j : nat) (tag : Z) : Z := match j with O => tag | S m => sval m (chain m tag) end.
 
 (* every prefix property is checked with the rows seen so far (newest first in [seen]) *)
 Fixpoint walk (f : list (list Z) -> list Z -> bool) (seen : list (list Z)) (l : list (list Z)) : bool :=
